@@ -1166,18 +1166,19 @@ fn update_local_file_header<T: Write + io::Seek>(
     file: &ZipFileData,
 ) -> ZipResult<()> {
     const CRC32_OFFSET: u64 = 14;
+    // check compressed size as well as it can also be slightly larger than uncompressed size;
+    // refuse before the header is touched: the sink must stay positioned at the end of the entry
+    if !file.large_file && file.compressed_size > spec::ZIP64_BYTES_THR {
+        return Err(ZipError::Io(io::Error::new(
+            io::ErrorKind::Other,
+            "Large file option has not been set",
+        )));
+    }
     writer.seek(io::SeekFrom::Start(file.header_start + CRC32_OFFSET))?;
     writer.write_u32::<LittleEndian>(file.crc32)?;
     if file.large_file {
         update_local_zip64_extra_field(writer, file)?;
     } else {
-        // check compressed size as well as it can also be slightly larger than uncompressed size
-        if file.compressed_size > spec::ZIP64_BYTES_THR {
-            return Err(ZipError::Io(io::Error::new(
-                io::ErrorKind::Other,
-                "Large file option has not been set",
-            )));
-        }
         writer.write_u32::<LittleEndian>(file.compressed_size as u32)?;
         // uncompressed size is already checked on write to catch it as soon as possible
         writer.write_u32::<LittleEndian>(file.uncompressed_size as u32)?;
